@@ -181,6 +181,10 @@ func (fst *FSTree) Query(q *query.Query, local, internal bool) (*iterator.Iterat
 	fileInfo, err := os.Stat(walkPrefix)
 	var walkRoot string
 	switch {
+	case walkPrefix == fst.basePath:
+		// The prefix names the base directory itself (eg. "." or "a/.."):
+		// never walk its parent.
+		walkRoot = walkPrefix
 	case err == nil && fileInfo.IsDir() &&
 		(q.DatabaseKeyPrefix() == "" || strings.HasSuffix(q.DatabaseKeyPrefix(), "/")):
 		walkRoot = walkPrefix
